@@ -563,6 +563,11 @@ func vNthSiblingIndex() (int, []string) {
 //@   requires n != nil && s1 != nil && s2 != nil
 //@   modifies nothing
 //@   ensures !s2.Match(old(n)) ==> !result
+// Selectors 4 §15.3 next-sibling combinator: only ELEMENTS count for adjacency ("non-element nodes, e.g. text
+// between elements, are ignored"): every text or comment node before the element is skipped, whatever it
+// contains, and the left selector is matched against the first node that is neither
+//@   loop 1 step[skips-text-and-comments] old(n.Type) == html.TextNode || old(n.Type) == html.CommentNode
+//@   return 2 ensures[nearest-non-text-sibling] n.Type != html.TextNode && n.Type != html.CommentNode
 
 //@ func (relativePseudoClassSelector).Match
 //@   props C05
